@@ -49,6 +49,9 @@ def run(ctx):
         e = evs[v[0]]
         if v[1] == "Setup":
             raise vlib.NoVerdict("set-up of a server for class %s failed: %s" % (e["class"], e["setup"]))
+        if v[1] == "SilentSuccess":      # C09's business (reported by its check)
+            ctx.notes.append("SilentSuccess@%s belongs to C09" % e["class"])
+            continue
         ctx.finding("%s@%s" % (v[1], e["class"]), "%s after request class %s: outcome %s %s; alive=%d %s; restart=%d %s; probes: %s / %s"
                     % (v[1], e["class"], e["outcome"], e["err"][:100], e["alive"], e["why"], e["restart"], e["restartwhy"], e["probe"][:80], e["replayprobe"][:80]),
                     {"event": e})
